@@ -170,9 +170,22 @@ func main() {
 		}
 		fmt.Fprintf(&sb, "(%d, %d, %d)%%N", v[0], v[1], v[2])
 	}
+	sb.WriteString("].\n\n")
+	sb.WriteString("(* references to wall clock, global random source, process identity ... (not the injected sources) in library code *)\n")
+	sb.WriteString("Definition ambient_calls : list ambient_call := [")
+	amb := a.ambientCalls()
+	for i, x := range amb {
+		if i > 0 {
+			sb.WriteString(";")
+		}
+		fmt.Fprintf(&sb, "\n  (* %s *) {| am_pkg := %s; am_func := %s; am_callee := %s |}", x.Pos, coqString(x.Pkg), coqString(x.Func), coqString(x.Callee))
+	}
 	sb.WriteString("].\n")
 
 	if *list {
+		for _, x := range amb {
+			fmt.Printf("ambient %-30s %-40s %-20s %s\n", x.Pkg, x.Func, x.Callee, x.Pos)
+		}
 		for _, s := range sites {
 			fmt.Printf("%-34s %-44s %d c=%d %-28s [%s]   %s\n", s.Pkg, s.Func, s.Ord, s.Callers, s.Pos, strings.Join(s.Effects, "; "), s.MapType)
 		}
@@ -236,6 +249,88 @@ func isWordByte(b byte) bool {
 
 func coqString(s string) string {
 	return "\"" + strings.ReplaceAll(safeWords(s), "\"", "\"\"") + "\""
+}
+
+// ambient sources: calls that read incidental process state instead of the injected clock / UUID / random sources
+func ambientCallee(fn *types.Func) string {
+	if fn == nil || fn.Pkg() == nil {
+		return ""
+	}
+	p, n := fn.Pkg().Path(), fn.Name()
+	sig, _ := fn.Type().(*types.Signature)
+	isMethod := sig != nil && sig.Recv() != nil
+	switch {
+	case p == "time" && !isMethod && (n == "Now" || n == "Since" || n == "Until" || n == "After" || n == "Tick" || n == "NewTimer" || n == "NewTicker" || n == "AfterFunc"):
+		return "time." + n
+	case (p == "math/rand" || p == "math/rand/v2") && !isMethod && n != "New" && n != "NewSource" && n != "NewPCG" && n != "NewChaCha8" && n != "NewZipf":
+		return p + "." + n
+	case p == "crypto/rand":
+		return "crypto/rand." + n
+	case p == "os" && !isMethod && (n == "Getpid" || n == "Getppid" || n == "Hostname" || n == "Getenv" || n == "LookupEnv" || n == "Environ" || n == "Getwd" || n == "Executable"):
+		return "os." + n
+	case p == "runtime" && (n == "NumGoroutine" || n == "NumCPU" || n == "GOMAXPROCS" || n == "Stack" || n == "Caller" || n == "Callers"):
+		return "runtime." + n
+	case strings.HasSuffix(p, "google/uuid") && !isMethod && strings.HasPrefix(n, "New"):
+		return "uuid." + n
+	}
+	return ""
+}
+
+type ambient struct {
+	Pkg, Func, Callee, Pos string
+}
+
+func (a *analyzer) ambientCalls() []ambient {
+	var res []ambient
+	for _, p := range a.pkgs {
+		rel := strings.TrimPrefix(strings.TrimPrefix(p.PkgPath, modPath), "/")
+		skip := false
+		for _, sp := range skipPrefixes {
+			if rel == strings.TrimSuffix(sp, "/") || strings.HasPrefix(rel+"/", sp) || strings.HasPrefix(rel, sp) {
+				skip = true
+			}
+		}
+		if skip {
+			continue
+		}
+		for i, f := range p.Syntax {
+			if strings.HasSuffix(p.CompiledGoFiles[i], "_test.go") || isGenerated(f) {
+				continue
+			}
+			for _, d := range f.Decls {
+				name := "var"
+				if fd, ok := d.(*ast.FuncDecl); ok {
+					name = fd.Name.Name
+					if fd.Recv != nil && len(fd.Recv.List) > 0 {
+						name = recvName(fd.Recv.List[0].Type) + "." + name
+					}
+				}
+				ast.Inspect(d, func(n ast.Node) bool {
+					// any reference counts (a call, or the function taken as a value)
+					id, ok := n.(*ast.Ident)
+					if !ok {
+						return true
+					}
+					if fn, ok := p.TypesInfo.Uses[id].(*types.Func); ok {
+						if c := ambientCallee(fn); c != "" {
+							res = append(res, ambient{rel, name, c, a.pos(id.Pos())})
+						}
+					}
+					return true
+				})
+			}
+		}
+	}
+	sort.Slice(res, func(i, j int) bool {
+		if res[i].Pkg != res[j].Pkg {
+			return res[i].Pkg < res[j].Pkg
+		}
+		if res[i].Func != res[j].Func {
+			return res[i].Func < res[j].Func
+		}
+		return res[i].Pos < res[j].Pos
+	})
+	return res
 }
 
 // registeredVersions reads the calls registerMigration(semver.MustParse("x.y.z"), ...) of the migrations package
